@@ -7,7 +7,7 @@ MX=/tmp/plvrf; rm -rf $MX; mkdir -p $MX; git -C /repo worktree prune
 ids=(); for p in /verif/refactors/*.patch.diff; do id=$(basename $p .patch.diff); [[ "$id" == $PAT ]] && ids+=("$id"); done
 worker() {
   k=$1; wt=$MX/w$k
-  git -C /repo worktree add --detach -f $wt HEAD >/dev/null 2>&1 || { echo "worktree $k failed"; return; }
+  [ -d $wt ] || { echo "worktree $k missing"; return; }
   i=0
   for id in "${ids[@]}"; do
     i=$((i+1)); [ $(( i % N )) -eq $k ] || continue
@@ -19,6 +19,7 @@ worker() {
   git -C /repo worktree remove --force $wt
   rm -rf /verif/.work/*-rf$k
 }
+for k in $(seq 0 $((N-1))); do git -C /repo worktree add --detach -f $MX/w$k HEAD >/dev/null 2>&1; done   # sequentially: concurrent adds race on .git/worktrees
 for k in $(seq 0 $((N-1))); do worker $k & done; wait
 cat $MX/rows.* | sort
 rc=0; cat $MX/rows.* | grep -qv ": silent$" && rc=1
